@@ -16,6 +16,7 @@ CONSTANTS
   MaxSteps = 0
   Sample = FALSE
   Variant = "base"
+  SplitAdd = "off"
 INVARIANT QuotaExact
 INVARIANT CostExact
 INVARIANT NeverLockedOut
